@@ -48,6 +48,20 @@ class Ctl:
         self.procs.append(p)
         return p
 
+    def spawn_later(self, argv, cwd=None, git=False):
+        """Start this process only once HEAD has moved (the other process's `git commit` has created its commit): an agent report that
+        begins while git-ai's post-commit work for that commit is still running."""
+        self.later = getattr(self, "later", []) + [(argv, cwd, git)]
+        self.head0 = self.w.ogit("rev-parse", "HEAD").strip()
+
+    def _maybe_spawn_later(self, force=False):
+        if getattr(self, "later", None) and (force or self.w.ogit("rev-parse", "HEAD").strip() != self.head0):
+            for argv, cwd, git in self.later:
+                self.spawn(argv, cwd=cwd, git=git)
+            self.later = []
+            return True
+        return False
+
     def parked(self):
         """{proc index: wait-file path} for processes currently parked."""
         out = {}
@@ -66,7 +80,10 @@ class Ctl:
         quiet = 0
         exited = set()
         while True:
+            self._maybe_spawn_later()
             alive = [i for i, p in enumerate(self.procs) if p.poll() is None]
+            if not alive and self._maybe_spawn_later(force=True):
+                continue
             for i in range(len(self.procs)):
                 if i not in alive and i not in exited:
                     exited.add(i)
@@ -203,8 +220,11 @@ def scenario(kind, choices, serial=None):
                 e = w.env({"GIT_AI": "git"} if git else {})
                 subprocess.run([BIN] + argv, cwd=cwd, env=e, capture_output=True)
         else:
-            for argv, cwd, git in cmds:
-                c.spawn(argv, cwd=cwd, git=git)
+            for ci, (argv, cwd, git) in enumerate(cmds):
+                if kind == "ckpt-commit-leftover" and ci == 1:
+                    c.spawn_later(argv, cwd=cwd, git=git)
+                else:
+                    c.spawn(argv, cwd=cwd, git=git)
             seq, opts, outs = c.run_schedule(choices)
             if outs == "watchdog":
                 return dict(inconclusive="watchdog in schedule %r" % (seq,), seq=seq, opts=opts, viol=[])
